@@ -19,6 +19,9 @@ class State:
     created = []          # strong refs to every LinComb constructed since the last clear()
     mismatches = []       # (object, value, wire value) recorded by the constructor contract
     installed = False
+    val_installed = False
+    val_evaluations = 0
+    val_float_not_exact = 0
     track = True
 
 
@@ -53,6 +56,68 @@ def install_lincomb_contract():
     import pysnark.runtime as rt
     rt.LinComb.__init__ = icontract.ensure(_post_init, error=ValueWireMismatch)(rt.LinComb.__init__)
     State.installed = True
+
+
+def _ev_self(obj):
+    """(signed representative of the wire expression of obj on the current assignment, modulus) or None"""
+    from vf import recorder
+    lc = obj.lc
+    while not hasattr(lc, "d"):
+        lc = getattr(lc, "lc", None)          # LinCombBool / LinCombFxp wrap a LinComb
+        if lc is None:
+            return None
+    w = recorder.ev(lc) % recorder.modulus
+    return (w if w <= recorder.modulus // 2 else w - recorder.modulus), recorder.modulus
+
+
+def _post_val_int(self, result):
+    """what val() hands to the program is congruent to the wire expression (integers, booleans)"""
+    State.evaluations += 1
+    State.val_evaluations += 1
+    e = _ev_self(self)
+    if e is None or isinstance(result, float) or not isinstance(result, int):
+        if e is not None:
+            State.mismatches.append((self, result, e[0], "val() returned a %s" % type(result).__name__))
+        return True
+    if (int(result) - e[0]) % e[1] != 0:
+        State.mismatches.append((self, result, e[0], "val()"))
+    return True
+
+
+def _post_val_fxp(self, result):
+    """the float reported by LinCombFxp.val(), scaled by the resolution in effect, is the wire expression"""
+    import pysnark.fixedpoint as fx
+    State.evaluations += 1
+    State.val_evaluations += 1
+    e = _ev_self(self)
+    if e is None:
+        return True
+    w = e[0]
+    iv = getattr(getattr(self, "lc", None), "value", None)
+    if abs(w) >= 1 << 52 or not isinstance(iv, int) or abs(iv) >= 1 << 52:
+        State.val_float_not_exact += 1
+        return True            # a float cannot carry it exactly; the integer contracts cover the wire itself
+    try:
+        scaled = result * (1 << fx.resolution)
+        ok = scaled == int(scaled) and (int(scaled) - w) % e[1] == 0
+    except Exception:
+        ok = False
+    if not ok:
+        State.mismatches.append((self, result, w, "val() at resolution %d" % fx.resolution))
+    return True
+
+
+def install_val_contracts():
+    """post-conditions on the real val() methods: the value a program prints / returns is what the proof speaks about"""
+    if State.val_installed:
+        return
+    import pysnark.runtime as rt
+    import pysnark.boolean as bo
+    import pysnark.fixedpoint as fx
+    rt.LinComb.val = icontract.ensure(_post_val_int, error=ValueWireMismatch)(rt.LinComb.val)
+    bo.LinCombBool.val = icontract.ensure(_post_val_int, error=ValueWireMismatch)(bo.LinCombBool.val)
+    fx.LinCombFxp.val = icontract.ensure(_post_val_fxp, error=ValueWireMismatch)(fx.LinCombFxp.val)
+    State.val_installed = True
 
 
 def clear():
